@@ -127,8 +127,24 @@ func getStoreRoles(P *Program) (*storeRoles, []string) {
 					hasT = true
 				}
 			}
-			if !hasS || !hasT {
+			if !hasT {
 				continue
+			}
+			if !hasS {
+				// the timestamps of the session passed one by one: every call site hands over loads of session fields
+				nField := 0
+				for _, m := range sr.memMethods {
+					for _, cs := range callsToFn(m, fn) {
+						for _, a := range cs.Common().Args {
+							if base, f, isL := fieldLoad(resolveCell(stripConv(a))); isL && f != nil && types.Identical(derefType(base.Type()), sr.SessionType) {
+								nField++
+							}
+						}
+					}
+				}
+				if nField < 2 {
+					continue
+				}
 			}
 			called := false
 			for _, m := range sr.memMethods {
@@ -203,7 +219,7 @@ func bindPredicateParams(P *Program, exp *ssa.Function) {
 		return
 	}
 	for i, p := range exp.Params {
-		if typeID(p.Type()) != "time.Duration" {
+		if typeID(p.Type()) != "time.Duration" && typeID(p.Type()) != "time.Time" {
 			continue
 		}
 		name := ""
@@ -440,6 +456,10 @@ func c10R1(c *Check, sr *storeRoles) {
 						if isS(a) {
 							return true
 						}
+						// the predicate is handed the session's timestamps instead of the session
+						if base, f, isL := fieldLoad(resolveCell(stripConv(a))); isL && f != nil && isS(resolveCell(stripConv(base))) {
+							return true
+						}
 					}
 					return false
 				}
@@ -454,7 +474,26 @@ func c10R1(c *Check, sr *storeRoles) {
 							}
 						}
 					case *ssa.FieldAddr:
-						return isS(x.X)
+						if !isS(x.X) {
+							return false
+						}
+						// reading a timestamp only to hand it to the predicate is the consultation itself
+						onlyForPred := x.Referrers() != nil && len(*x.Referrers()) > 0
+						if onlyForPred {
+							for _, r := range *x.Referrers() {
+								ld, isLd := r.(*ssa.UnOp)
+								if !isLd || ld.Op != token.MUL || ld.Referrers() == nil || len(*ld.Referrers()) == 0 {
+									onlyForPred = false
+									break
+								}
+								for _, lr := range *ld.Referrers() {
+									if li, isI := lr.(ssa.Instruction); !isI || !isPredCall(li) {
+										onlyForPred = false
+									}
+								}
+							}
+						}
+						return !onlyForPred
 					case *ssa.Call:
 						if isPredCall(i) {
 							return false
